@@ -223,8 +223,30 @@ static int hex2d_main(int quick, const char *path) {
     vt_close(); return 0;
 }
 
+/* concurrent mode: 8 threads index their own uniform points at the same time (the cell of a point is a function of the point whatever
+ * other threads are asking); per-thread event streams, same trace spec */
+#include <pthread.h>
+typedef struct { uint64_t seed; int n; char *buf; size_t len; } LlTh;
+static pthread_barrier_t g_bar;
+static void *ll_worker(void *arg) {
+    LlTh *t = arg; vt_seed(t->seed); vt_out = open_memstream(&t->buf, &t->len);
+    pthread_barrier_wait(&g_bar);
+    random_points(t->n);
+    fclose(vt_out); vt_out = NULL; return NULL;
+}
+static int ll_threads(int quick, uint64_t seed, const char *path) {
+    enum { T = 8 }; LlTh th[T]; pthread_t id[T]; memset(th, 0, sizeof th);
+    for (int t = 0; t < T; t++) { th[t].seed = seed * 131 + 2002 + t; th[t].n = quick ? 1500 : 25000; }
+    pthread_barrier_init(&g_bar, NULL, T);
+    for (int t = 0; t < T; t++) pthread_create(&id[t], NULL, ll_worker, &th[t]);
+    for (int t = 0; t < T; t++) pthread_join(id[t], NULL);
+    vt_open(path);
+    for (int t = 0; t < T; t++) { fwrite(th[t].buf, 1, th[t].len, vt_out); (free)(th[t].buf); }
+    vt_close(); return 0;
+}
 int main(int argc, char **argv) {
     if (argc < 4) return 2;
+    if (argc >= 5 && !strcmp(argv[1], "threads")) return ll_threads(argv[2][0] == 'q', strtoull(argv[3], 0, 10), argv[4]);
     if (!strcmp(argv[1], "hex2d")) { vt_seed(strtoull(argv[3], 0, 10) + 22); return hex2d_main(argv[2][0] == 'q', argv[4]); }
     int quick = argv[2][0] == 'q'; vt_seed(strtoull(argv[3], 0, 10) + 2);
     int measure = !strcmp(argv[1], "measure");
